@@ -434,7 +434,7 @@ def sections(tier):
     shapes = [(1, 1, 2), (1, 2, 2), (1, 1, 3)] if quick(tier) else [(1, 1, 2), (1, 2, 2), (1, 1, 3), (2, 2, 2), (1, 2, 3), (2, 2, 3)]
     for shp in shapes:
         S.append((f"formulas-{shp}", "checks.c07", "sec_formulas", {"shape": shp}))
-    mshapes = [(1, 1, 2), (1, 2, 2)] if quick(tier) else [(1, 1, 2), (1, 2, 2), (2, 2, 2), (1, 1, 4)]
+    mshapes = [(1, 1, 2), (1, 2, 2)] if quick(tier) else [(1, 1, 2), (1, 2, 2), (2, 1, 2), (1, 1, 4)]  # sides 1,2,4 only (exact DFT); 8 masked voxels: the guard resolution times out (stated bound: <= 4 voxels)
     for kind in ("zncc", "ncc"):
         for shp in mshapes:
             S.append((f"model-{kind}-{shp}", "checks.c07", "sec_model", {"kind": kind, "shape": shp}))
